@@ -54,6 +54,33 @@ func (w *Worker) funcInfo(fn *ssa.Function) *FuncInfo {
 	return fi
 }
 
+// noteRecursion (C15): a library function that is already active four times on the call stack is
+// recursing once per unit of peer input in these harnesses (their inputs are a handful of frames
+// or bytes): stack depth proportional to what the peer sends, i.e. a stack overflow (a crash no
+// recover() catches) for a long enough input.  Reported once per function; natively confirmed by
+// the harness scaling the same input up (see C15_control_flood).
+func (w *Worker) noteRecursion(fn *ssa.Function) {
+	if fn.Pkg == nil || !strings.HasPrefix(fn.Pkg.Pkg.Path(), "github.com/gobwas/") || w.isHarnessFn(fn) {
+		return
+	}
+	n := 0
+	for _, fr := range w.stack {
+		if fr.fn == fn {
+			n++
+		}
+	}
+	if n < 4 {
+		return
+	}
+	key := "recursion:" + fn.String()
+	if w.inPrefix() || w.reportedOnce[key] {
+		return
+	}
+	w.reportedOnce[key] = true
+	w.ensureModel()
+	w.reportViolation("nopanic", "recursion", fn.String(), "call depth of "+fn.String()+" grows with the peer's input (5 nested activations here): stack overflow for a long enough input", w.model)
+}
+
 func (w *Worker) curFn() string {
 	if len(w.stack) == 0 {
 		return "?"
@@ -143,6 +170,7 @@ func (w *Worker) callFunction(fn *ssa.Function, args []Val, bind []Val) Val {
 	if len(w.stack) > 200 {
 		panic(engineError{"call depth exceeded"})
 	}
+	w.noteRecursion(fn)
 	fi := w.funcInfo(fn)
 	fr := &Frame{fn: fn, regs: make([]Val, fi.n), bind: bind, info: fi}
 	for i := range fn.Params {
